@@ -1,7 +1,7 @@
 """C01 — every diagram the library hands back is well-typed."""
 import random
 
-from common import Driver, Report, ser_result, wf_failure, lean_obligations, err_class
+from common import Driver, Report, ser_result, wf_failure, lean_obligations, err_class, Aging
 from core import Family, tok_expr, expr_ops, expr_size
 from exprgen import ExprGen
 
@@ -49,14 +49,18 @@ def run(tier, seed, replay=None):
     try:
         cases = []
         for k in range(n_cases):
-            fam = "rigid" if k % 2 else "monoidal"
-            eg = ExprGen(random.Random(rng.getrandbits(64)), rigid=(fam == "rigid"))
-            if k % 10 == 9:
+            fam = ("monoidal", "rigid", "mixed", "rigid")[k % 4]
+            eg = ExprGen(random.Random(rng.getrandbits(64)), rigid=(fam != "monoidal"),
+                         mixed=(fam == "mixed"))
+            if (k // 4) % 8 == 7:
                 e = eg.malformed_mk()[0]
             else:
                 e = eg.expr(eg.rng.randint(1, 4))[0]
             cases.append((fam, e))
-        fams = {"monoidal": Family("monoidal"), "rigid": Family("rigid")}
+        fams = {"monoidal": Family("monoidal"), "rigid": Family("rigid"), "mixed": Family("mixed")}
+        aging = Aging()
+        for f in fams.values():
+            f.watch = aging.watch
         lines = ["eval " + tok_expr(e) for _, e in cases]
         answers = drv.ask_many(lines)
         for (fam, e), line, model in zip(cases, lines, answers):
@@ -86,6 +90,52 @@ def run(tier, seed, replay=None):
             for why, what in monitor_hits[before:]:
                 rep.fail("illtyped_intermediate:" + ops[0], dict(family=fam, expr=repr(e)),
                          why + " in " + what)
+            # histories: every sub-result of this operation sequence, re-read now
+            for what, why in aging.recheck():
+                rep.fail("earlier_value_spoilt:" + what, dict(family=fam, expr=repr(e)), why)
+        for f in fams.values():
+            f.watch = None
+        # ---- histories through the rewriting generators: the input, and every step yielded
+        # earlier, are re-read after the generator has moved on / finished
+        from props import c07 as g07
+        from discopy import rigid as _rigid, monoidal as _monoidal
+        for k in range(60 if tier == "quick" else 2000):
+            r = random.Random(rng.getrandbits(64))
+            fam = fams["rigid"]
+            if k % 3 == 0:
+                e = g07.spiral_snake(r, fam)
+                e = e[0] if isinstance(e, tuple) and e and isinstance(e[0], tuple) else e
+            else:
+                eg = ExprGen(r, rigid=True)
+                e0, scans = eg.g.diagram(depth=r.choice([1, 2, 3, 4, 5]))
+                e = g07.insert_snakes(r, e0, scans)
+                e = e[0] if isinstance(e, tuple) and e and isinstance(e[0], tuple) else e
+            try:
+                d = fam.run(e) if isinstance(e, tuple) else e
+            except Exception as exc:
+                rep.count("history_input_error:" + err_class(exc))
+                continue
+            hist = Aging()
+            hist.watch("input", d)
+            n_steps = 0
+            for name, gen in (("normalize", lambda: d.normalize()),
+                              ("normalize_left", lambda: d.normalize(left=True)),
+                              ("monoidal_normalize", lambda: _monoidal.Diagram.normalize(d)),
+                              ("foliate", lambda: _monoidal.Diagram.foliate(d))):
+                try:
+                    for i, step in enumerate(gen()):
+                        n_steps += 1
+                        hist.watch("%s step %d" % (name, i), step)
+                        if i > 200:
+                            break
+                    hist.watch(name + " normal_form", d.normal_form())
+                except Exception as exc:
+                    rep.count("history_error:%s:%s" % (name, err_class(exc)))
+            rep.case("history " + repr(e)[:400], n_steps >= 2)
+            rep.count("history_steps:%s" % (n_steps if n_steps < 10 else "10+"))
+            for what, why in hist.recheck():
+                rep.fail("earlier_value_spoilt:" + what.split(" ")[0],
+                         dict(family="rigid", expr=repr(e)), what + ": " + why)
         # ---- foliate: yielded steps and slices, model vs code, plus the oracle
         from common import ser_diagram
         for k in range(80 if tier == "quick" else 1500):
